@@ -323,10 +323,6 @@ def run(prop, seed, budget, ctx):
 # wiring point -> known finding
 POINT_KF = {
     ("key", "typing-equality"): "KF13",
-    ("nested", "apischema.validation.validators._validators"): "KF36",
-    ("nested", "apischema.serialization.serialized_methods._serialized_methods"): "KF36",
-    ("nested", "apischema.dependencies._dependent_requireds"): "KF36",
-    ("nested", "apischema.graphql.resolvers._resolvers"): "KF36",
 }
 
 
